@@ -96,15 +96,22 @@ TDestroyed == /\ Is("Destroyed") /\ opc = "dead" /\ Step /\ UNCHANGED vars
 
 \* ---- big map() calls: the executed chunks sorted by begin, and per worker id the execution intervals sorted by start
 SeqOK(s) == \A i \in 1..(Len(s) - 1) : s[i] < s[i + 1]
+\* A call on the inline path (one worker, or a single chunk) that is cut short by a task's exception: the chunks up to the throwing
+\* one ran, the exception propagates whatever `raise` says (what the code does; ThreadPool.tla, CInlineEnd) - every other call runs
+\* every chunk exactly once and re-throws iff asked to.
 TBigMap == /\ Is("BigMap") /\ Step /\ UNCHANGED vars
-           /\ LET n == Ev.n ch == Ev.chunk bs == Ev.bs es == Ev.es m == Len(Ev.bs) IN
-              /\ m = NChunks(n, ch) /\ Len(es) = m
+           /\ LET n == Ev.n ch == Ev.chunk bs == Ev.bs es == Ev.es m == Len(Ev.bs)
+                  cut == (Ev.workers = 1 \/ ch >= n) /\ Ev.nthrow = 1 /\ Ev.outcome = "rethrow" IN
+              /\ IF cut THEN m >= 1 /\ m <= NChunks(n, ch)
+                        ELSE m = NChunks(n, ch) /\ Ev.outcome = (IF Ev.raise /\ Ev.nthrow > 0 THEN "rethrow" ELSE "ok")
+              /\ Len(es) = m
               /\ \A i \in 1..m : bs[i] = Chunk(n, ch, i)[1] /\ es[i] = Chunk(n, ch, i)[2]     \* exactly once, tiling [0, n)
               /\ Ev.maxtnum < Ev.workers
               /\ Len(Ev.tn) = m /\ Len(Ev.sb) = m /\ Len(Ev.se) = m
               /\ \A i \in 1..m : Ev.tn[i] >= 0 /\ Ev.sb[i] < Ev.se[i]
               /\ \A i \in 1..(m - 1) : Ev.tn[i] <= Ev.tn[i + 1]
                                        /\ (Ev.tn[i] = Ev.tn[i + 1] => Ev.se[i] < Ev.sb[i + 1])   \* worker id exclusive
+              /\ \A i \in 1..m : Ev.se[i] < Ev.ret                                             \* returns after all its tasks ended
 
 TraceInit == l = 1 /\ InitWith(1)
 TraceNext == \/ TReset \/ TLocked \/ TWoke \/ TPop \/ TStopSeen \/ TBegin \/ TEnd
